@@ -380,9 +380,26 @@ def add_special_methods(prog, rng, backend):
             add(vt, "named_constructor", pick(), None, [("v", ("prim", "u8"))], ("struct", vt.name))
     if sup["accessors"] and rng.random() < 0.6:
         g = "prop_" + pick()          # never the name of a sibling method: that collision is probed separately (C15 F33)
-        add(host, "getter = \"%s\"" % g, "fetch_" + g, ("ref", None), [], ("prim", "u32"))
-        if rng.random() < 0.5:
-            add(host, "setter = \"%s\"" % g, "store_" + g, ("mut", None), [("v", ("prim", "u32"))], ("unit",))
+        enums = [t for t in prog.types() if t.kind == "enum"]
+        vty = rng.choice([("prim", "u32"), ("prim", "u32"), ("prim", "bool"), ("prim", "f64"), ("prim", "i16")] + ([("enum", rng.choice(enums).name)] if enums else []))
+        # getters may be nullable / fallible, setters may report success ("does not forbid fallible setters"): the success flag is still
+        # part of the function's C ABI (seed C07-g: Dart declared such setters as returning void)
+        gret = rng.choice([vty, vty, ("opt", vty, "std") if sup["option"] else vty, ("result", vty, ("unit",), "std")])
+        add(host, "getter = \"%s\"" % g, "fetch_" + g, ("ref", None), [], gret)
+        if rng.random() < 0.6:
+            sret = rng.choice([("unit",), ("unit",), ("result", ("unit",), ("unit",), "std"), ("opt", ("unit",), "std")])
+            add(host, "setter = \"%s\"" % g, "store_" + g, rng.choice([("mut", None), ("ref", None)]), [("v", vty)], sret)
+        if sup.get("static_accessors") and rng.random() < 0.4:
+            g2 = "sprop_" + pick()
+            add(host, "getter = \"%s\"" % g2, "sfetch_" + g2, None, [], vty)
+            if rng.random() < 0.5:
+                add(host, "setter = \"%s\"" % g2, "sstore_" + g2, None, [("v", vty)], rng.choice([("unit",), ("result", ("unit",), ("unit",), "std")]))
+    if sup.get("constructors") and rng.random() < 0.4:
+        # a constructor on the opaque itself, fallible where the backend can express that
+        cret = ("obox", host.name, False)
+        if sup.get("fallible_constructors") and rng.random() < 0.5:
+            cret = ("result", cret, ("unit",), "std")
+        add(host, "constructor", pick(), None, [("v", ("prim", "i32"))], cret)
     return n
 
 
